@@ -250,8 +250,13 @@ def x_hist(ctx, case):
                 ok = ok and ("FAILED (failures=%d)" % len(bad)) in text and "\nOK\n" not in text
             else:
                 ok = ok and text.rstrip().endswith("OK") and "FAILED" not in text
-            sections = len(re.findall(r"^(ERROR|FAIL|UNEXPECTED SUCCESS): ", text, re.M))
-            ok = ok and sections == len(bad)
+            found = sorted(re.findall(r"^(ERROR|FAIL|UNEXPECTED SUCCESS): (\S+)$", text, re.M))
+            sections = len(found)
+            label = {"error": "ERROR", "failure": "FAIL", "uxsuccess": "UNEXPECTED SUCCESS"}
+            first_id = i - len(tests) + 1
+            want_sections = sorted((label[o], "t%d" % (first_id + k2))
+                                   for k2, o in enumerate(seg["tests"][:n_run]) if o in BAD)
+            ok = ok and found == want_sections
             ctx.check(ok, "text.summary-agrees",
                       lambda: {"text": text[-400:], "ran": n_run, "problems": len(bad), "sections": sections, **detail()})
     return nontrivial
